@@ -15,7 +15,7 @@ verus! {
 pub open spec fn wsum_f<A: Add<Output = A> + Mul<Output = A>>() -> spec_fn(A, (A, A)) -> A { |acc: A, p: (A, A)| acc.add_spec(p.0.mul_spec(p.1)) }
 
 impl<A, D: Dimension> ArrayN<A, D> {
-//@extract file=src/summary_statistics/means.rs impl=SummaryStatisticsExt:ArrayBase fn=weighted_sum id=weighted_sum tags=C06,C17,C18,C20 body_tags=C06
+//@extract file=src/summary_statistics/means.rs impl=SummaryStatisticsExt:ArrayBase fn=weighted_sum id=weighted_sum tags=C06,C17,C18,C20 body_tags=C06 macro_into=verif_into_same
 //@sig
     fn weighted_sum(&self, weights: &ArrayN<A, D>) -> (r: Result<A, MultiInputError>)
     where
@@ -23,7 +23,8 @@ impl<A, D: Dimension> ArrayN<A, D> {
 //@spec
         requires A::obeys_add_spec(), A::obeys_mul_spec(), forall|a: A, b: A| #[trigger] a.add_req(b), forall|a: A, b: A| #[trigger] a.mul_req(b),
         ensures
-            self.shape_spec() != weights.shape_spec() ==> r is Err, // [C06,C17] (also for empty inputs: the sum-type routine only checks shapes)
+            self.shape_spec() != weights.shape_spec() ==> (r matches Err(MultiInputError::ShapeMismatch(sm)) && sm.first_shape@ == self.shape_spec() && sm.second_shape@ == weights.shape_spec()), // [C06,C17] (also for empty inputs: the sum-type routine only checks shapes)
+            self.shape_spec() == weights.shape_spec() ==> r is Ok, // [C17] Ok otherwise, empty inputs included
             // otherwise: zero + d_0*w_0 + d_1*w_1 + ... with data and weights paired by *logical* index, in logical order
             self.shape_spec() == weights.shape_spec() ==> (r matches Ok(v) && v == zip_seq(self@, weights@).fold_left(A::zero_spec(), wsum_f::<A>())), // [C06,C20]
 //@closure 0
@@ -55,7 +56,8 @@ let d = *p.0; let w = *p.1;
         requires arith_ok::<A>(), forall|a: A, b: A| #[trigger] a.div_req(b),
         ensures
             self@.len() == 0 ==> r matches Err(MultiInputError::EmptyInput), // [C06,C17]
-            self@.len() > 0 && self.shape_spec() != weights.shape_spec() ==> r is Err, // [C06,C17]
+            self@.len() > 0 && self.shape_spec() != weights.shape_spec() ==> (r matches Err(MultiInputError::ShapeMismatch(sm)) && sm.first_shape@ == self.shape_spec() && sm.second_shape@ == weights.shape_spec()), // [C06,C17]
+            self@.len() > 0 && self.shape_spec() == weights.shape_spec() ==> r is Ok, // [C17] Ok otherwise
             // weighted_sum / (sum of the weights), with the type's own division
             self@.len() > 0 && self.shape_spec() == weights.shape_spec() ==> (r matches Ok(v) && exists|ws: Seq<A>| #[trigger] ws.to_multiset() == weights@.to_multiset()
                 && v == zip_seq(self@, weights@).fold_left(A::zero_spec(), wsum_f::<A>()).div_spec(ws.fold_left(A::zero_spec(), |acc: A, x: A| acc.add_spec(x)))), // [C06,C20]
@@ -72,6 +74,7 @@ let d = *p.0; let w = *p.1;
             A::from_usize_spec(self@.len() as usize).is_some(), self@.len() <= usize::MAX,
         ensures
             self@.len() == 0 ==> r matches Err(MinMaxError::EmptyInput), // [C06,C17] (EmptyInput is modelled by the value it converts to, see shim/ndarr.rs)
+            self@.len() > 0 ==> r is Ok, // [C17] Ok otherwise
             // (sum of all elements) / n with the type's own division
             self@.len() > 0 ==> (r matches Ok(v) && exists|ps: Seq<A>| #[trigger] ps.to_multiset() == self@.to_multiset()
                 && v == ps.fold_left(A::zero_spec(), |acc: A, x: A| acc.add_spec(x)).div_spec(A::from_usize_spec(self@.len() as usize).unwrap())), // [C06,C20]
